@@ -1,6 +1,6 @@
 (* C16 property theorems: statements only, each closed by `exact`, with Print Assumptions. *)
-From Coq Require Import ZArith List Bool.
-From QE Require Import Base.Num C16.Model C16.Proofs.
+From Coq Require Import ZArith QArith Qabs List Bool Lia.
+From QE Require Import Base.Num C16.Model C16.Proofs C16.Proofs2 C16.Proofs3 C16.Proofs4 C16.Proofs5 C16.Proofs6.
 Import ListNotations.
 Open Scope Z_scope.
 
@@ -19,3 +19,183 @@ Theorem C16_comb_jit_exact : forall N k,
   0 <= N <= INTP_MAX -> 0 <= k <= N -> comb_jit N k <> 0 -> comb_jit N k = binomZ N k.
 Proof. exact comb_jit_exact. Qed.
 Print Assumptions C16_comb_jit_exact.
+
+(* ================= combinatorial number system (Proofs2.v) =================
+   sincr a        : a is strictly increasing
+   k_array k a    : length a = k, 1 <= k, sincr a, 0 <= a[0]   (the arrays next_k_array / k_array_rank are defined for) *)
+
+(* next_k_array is the successor in the combinatorial number system *)
+Theorem C16_next_k_array_succ : forall k a, k_array k a ->
+  k_array k (next_k_array a) /\ k_array_rank (next_k_array a) = k_array_rank a + 1.
+Proof. exact next_k_array_succ. Qed.
+Print Assumptions C16_next_k_array_succ.
+
+(* C(a[k-1], k) <= rank a < C(a[k-1]+1, k) *)
+Theorem C16_rank_bounds : forall k a, k_array k a ->
+  binomZ (last a 0) (Z.of_nat k) <= k_array_rank a < binomZ (last a 0 + 1) (Z.of_nat k).
+Proof. exact rank_bounds. Qed.
+Print Assumptions C16_rank_bounds.
+
+Theorem C16_rank_lt_iff : forall k a n, k_array k a ->
+  (k_array_rank a < binomZ n (Z.of_nat k) <-> last a 0 < n).
+Proof. exact rank_lt_iff. Qed.
+Print Assumptions C16_rank_lt_iff.
+
+Theorem C16_rank_injective : forall k a b, k_array k a -> k_array k b ->
+  k_array_rank a = k_array_rank b -> a = b.
+Proof. exact rank_injective. Qed.
+Print Assumptions C16_rank_injective.
+
+(* a = arange(k); while a[k-1] < n: visit a; next_k_array(a)   -- with fuel > C(n,k) the model's walk
+   stops by its own test; it lists exactly the k-subsets of {0..n-1}, once each, the i-th having rank i *)
+Theorem C16_k_walk_enumerates : forall k n fuel, (1 <= k)%nat ->
+  (Z.to_nat (binomZ n (Z.of_nat k)) < fuel)%nat ->
+  let w := k_walk fuel n (zrange (Z.of_nat k)) in
+  map k_array_rank w = zrange (binomZ n (Z.of_nat k)) /\
+  (forall a, In a w <-> k_array k a /\ last a 0 < n) /\
+  NoDup w.
+Proof. exact k_walk_enumerates. Qed.
+Print Assumptions C16_k_walk_enumerates.
+
+(* rank_jit_guard i l : every entry x at position j >= i satisfies x < INTP_MAX and, when j+1 <= x,
+   ~ comb_overflows x (j+1)  (no product formed by comb_jit(x, j+1) exceeds INTP_MAX) *)
+Theorem C16_k_array_rank_jit_eq : forall a,
+  rank_jit_guard 1 (tl a) -> k_array_rank_jit a = k_array_rank a.
+Proof. exact k_array_rank_jit_eq. Qed.
+Print Assumptions C16_k_array_rank_jit_eq.
+
+Example C16_k_array_example : k_array 3 [0; 2; 5] /\ next_k_array [0; 2; 5] = [1; 2; 5] /\
+  k_array 3 [1; 2; 5] /\ next_k_array [1; 2; 5] = [0; 3; 5].
+Proof. unfold k_array. cbn. repeat split; lia. Qed.
+
+Example C16_rank_jit_guard_example : rank_jit_guard 1 (tl [0; 2; 5]).
+Proof.
+  cbn. unfold INTP_MAX. repeat split; try lia; intros _ (j & Hj & H); cbn in Hj;
+    assert (D : (j = 1 \/ j = 2)%nat) by lia; destruct D; subst j; vm_compute in H; discriminate.
+Qed.
+
+(* ================= cartesian products (Proofs3.v) =================
+   shapes_of nodes   : the grid sizes;   in_range is ns : 0 <= is[j] < ns[j] for all j (same length)
+   mixed_radix is ns : sum_j is[j] * prod(ns[j+1..])  (most significant digit first)
+   digits ns l       : [(l / prod(ns[j+1..])) mod ns[j]]_j;   pick d nodes is : [nodes[j][is[j]]]_j *)
+
+Theorem C16_cartesian_index_spec : forall is ns, length is = length ns ->
+  cartesian_index is ns = mixed_radix is ns.
+Proof. exact cartesian_index_spec. Qed.
+Print Assumptions C16_cartesian_index_spec.
+
+Theorem C16_cartesian_index_digits : forall ns l, Forall (fun n => 0 < n) ns -> 0 <= l < prodZ ns ->
+  cartesian_index (digits ns l) ns = l.
+Proof. exact cartesian_index_digits. Qed.
+Print Assumptions C16_cartesian_index_digits.
+
+Theorem C16_digits_cartesian_index : forall is ns, in_range is ns ->
+  digits ns (cartesian_index is ns) = is /\ 0 <= cartesian_index is ns < prodZ ns.
+Proof. exact digits_cartesian_index. Qed.
+Print Assumptions C16_digits_cartesian_index.
+
+(* C order: row l is the grid point whose index vector is the mixed-radix digit vector of l *)
+Theorem C16_cartesian_C_spec : forall (T : Type) (d : T) (nodes : list (list T)),
+  Forall (fun x => x <> []) nodes ->
+  cartesian d false nodes =
+  map (fun l => pick d nodes (digits (shapes_of nodes) l)) (zrange (prodZ (shapes_of nodes))).
+Proof. exact @cartesian_C_spec. Qed.
+Print Assumptions C16_cartesian_C_spec.
+
+(* F order: the C-order table of the reversed node list with every row reversed *)
+Theorem C16_cartesian_F_spec : forall (T : Type) (d : T) (nodes : list (list T)),
+  cartesian d true nodes = map (@rev T) (cartesian d false (rev nodes)).
+Proof. exact @cartesian_F_spec. Qed.
+Print Assumptions C16_cartesian_F_spec.
+
+(* every grid point appears: at the row numbered by _cartesian_index of its index vector
+   (together with C16_cartesian_index_digits: exactly once) *)
+Theorem C16_cartesian_C_row_of_index : forall (T : Type) (d : T) (nodes : list (list T)) (is : list Z),
+  in_range is (shapes_of nodes) ->
+  let l := cartesian_index is (shapes_of nodes) in
+  0 <= l < prodZ (shapes_of nodes) /\
+  nth (Z.to_nat l) (cartesian d false nodes) [] = pick d nodes is.
+Proof. exact @cartesian_C_row_of_index. Qed.
+Print Assumptions C16_cartesian_C_row_of_index.
+
+Example C16_in_range_example : in_range [1; 0; 2] (shapes_of [[10; 20]; [30]; [40; 50; 60]]).
+Proof. repeat constructor; cbn; lia. Qed.
+
+(* ================= nearest index over exact rationals (Proofs4.v) =================
+   qsorted g : forall i < j < length g, g[i] < g[j] *)
+Theorem C16_nearest_1d_argmin : forall (grid : list Q) (x : Q),
+  grid <> [] -> qsorted grid ->
+  let r := nearest_1d grid x in
+  (0 <= r < Z.of_nat (length grid)) /\
+  forall j, (j < length grid)%nat ->
+    (Qabs (nth (Z.to_nat r) grid 0 - x) <= Qabs (nth j grid 0 - x))%Q /\
+    ((Qabs (nth j grid 0 - x) == Qabs (nth (Z.to_nat r) grid 0 - x))%Q -> r <= Z.of_nat j).
+Proof. exact nearest_1d_argmin. Qed.
+Print Assumptions C16_nearest_1d_argmin.
+
+(* the flat index addresses, in the enumeration `cartesian` with the same order flag, the grid point
+   made of the per-coordinate nearest nodes (nearest_ind = map nearest_1d) *)
+Theorem C16_cartesian_nearest_index_row : forall (orderF : bool) (nodes : list (list Q)) (x : list Q),
+  Forall (fun g => g <> [] /\ qsorted g) nodes -> length x = length nodes ->
+  let l := cartesian_nearest_index orderF nodes x in
+  (0 <= l < prodZ (shapes_of nodes)) /\
+  nth (Z.to_nat l) (cartesian 0%Q orderF nodes) [] = pick 0%Q nodes (nearest_ind nodes x).
+Proof. exact cartesian_nearest_index_row. Qed.
+Print Assumptions C16_cartesian_nearest_index_row.
+
+Example C16_qsorted_example : qsorted [(-1)%Q; (1#2)%Q; 3%Q] /\ nearest_1d [(-1)%Q; (1#2)%Q; 3%Q] (7#4)%Q = 1.
+Proof.
+  split; [|reflexivity]. intros i j H. cbn [length] in H.
+  assert (D : ((i = 0 /\ j = 1) \/ (i = 0 /\ j = 2) \/ (i = 1 /\ j = 2))%nat) by lia.
+  destruct D as [[-> ->]|[[-> ->]|[-> ->]]]; reflexivity.
+Qed.
+
+(* ================= simplex grid (Proofs5.v, Proofs6.v) =================
+   sumZ, nonneg; lex_lt : lexicographic order;
+   sg_inv m (x,h)      : loop invariant: length x = m, 1<=h<=m, x nonneg, x[h-1]>=1, x[j]=0 for j>=h
+   composition m n x   : length m, nonneg, sum n
+   lex_succ m n x y    : x <lex y and no m-part composition of n lies strictly between *)
+
+(* one pass of the loop body of simplex_grid *)
+Theorem C16_sg_step_succ : forall m x h, sg_inv m (x, h) -> 2 <= h ->
+  let x' := fst (sg_step m (x, h)) in
+  sg_inv m (sg_step m (x, h)) /\
+  sumZ x' = sumZ x /\
+  lex_lt x x' /\
+  (forall y, length y = length x -> nonneg y -> sumZ y = sumZ x -> ~ (lex_lt x y /\ lex_lt y x')).
+Proof. exact sg_step_succ. Qed.
+Print Assumptions C16_sg_step_succ.
+
+(* whenever simplex_grid does not raise (L <> 0): L = C(n+m-1,m-1) rows, first row (0,..,0,n), every row a
+   composition, simplex_index (row j) = j, consecutive rows are immediate lexicographic successors *)
+Theorem C16_simplex_grid_spec : forall m n rows, 1 <= m -> 0 <= n -> n + m - 1 <= INTP_MAX ->
+  simplex_grid m n = Some rows ->
+  Z.of_nat (length rows) = num_compositions m n /\
+  nth 0 rows [] = repeat 0 (Z.to_nat (m - 1)) ++ [n] /\
+  forall j, (j < length rows)%nat ->
+    composition m n (nth j rows []) /\
+    simplex_index (nth j rows []) m n = Z.of_nat j /\
+    ((S j < length rows)%nat -> lex_succ m n (nth j rows []) (nth (S j) rows [])).
+Proof. exact simplex_grid_spec. Qed.
+Print Assumptions C16_simplex_grid_spec.
+
+(* every composition exactly once *)
+Theorem C16_simplex_grid_complete : forall m n rows, 1 <= m -> 0 <= n -> n + m - 1 <= INTP_MAX ->
+  simplex_grid m n = Some rows ->
+  (forall y, In y rows <-> composition m n y) /\ NoDup rows.
+Proof. exact simplex_grid_complete. Qed.
+Print Assumptions C16_simplex_grid_complete.
+
+Example C16_sg_inv_example : sg_inv 3 ([0; 1; 2], 3) /\ sg_step 3 ([0; 1; 2], 3) = ([0; 2; 1], 3) /\
+  sg_inv 4 ([1; 1; 0; 0], 2) /\ sg_step 4 ([1; 1; 0; 0], 2) = ([2; 0; 0; 0], 1).
+Proof.
+  assert (Z2 : zget [0; 1; 2] (3 - 1) = 2) by reflexivity.
+  assert (Z1 : zget [1; 1; 0; 0] (2 - 1) = 1) by reflexivity.
+  unfold sg_inv, nonneg. rewrite Z1, Z2. cbn [length].
+  repeat split; try lia; try (repeat constructor; lia); intros j Hj;
+    assert (D : j = 2 \/ j = 3) by lia; destruct D; subst j; reflexivity.
+Qed.
+
+Example C16_simplex_grid_example :
+  simplex_grid 3 2 = Some [[0;0;2]; [0;1;1]; [0;2;0]; [1;0;1]; [1;1;0]; [2;0;0]].
+Proof. reflexivity. Qed.
